@@ -13,21 +13,23 @@ EXHAUSTIVE = {"quick": "all line sequences of length <=4 over the per-mode alpha
               "thorough": "all line sequences of length <=5 over the per-mode alphabets x directions x pattern modes x formats"}
 
 ALPHA = {
-    "none": ["a", "b", "ab", "  a", "a  ", "", "   ", "2", "10", "9.5", "-3", "2.0"],
+    "none": ["a", "b", "ab", "  a", "a  ", "", "   ", "2", "10", "9.5", "-3", "2.0", "\u3000b", "\u00a0"],
     "group": ["id: a", "id: b", "id: ab", "  id: a", "id: a  ; x", "", "   ", "id: 2", "id: 10", "other", "id:", "zz id: b"],
     "plain": ["x a", "y b", "ab", "  a", "a  ", "", "   ", "q 2", "10", "z 9.5", "k\ta", "b"],
 }
+ALPHA["group2"] = ALPHA["group"]
 ALPHA_NUM = {
     "none": ["2", "10", "9.5", "-3", "2.0", "", "   ", "  2", "10  ", "1e1"],
     "group": ["id: 2", "id: 10", "id: 9.5", "id: -3", "id: 2.0", "", "other", "  id: 2", "id: 10  ; x", "id: 1e1"],
     "plain": ["x 2", "10", "z 9.5", "-3", "q 2.0", "", "   ", "  2", "10  ", "k\t1e1"],
 }
-PATTERN = {"none": None, "group": r"id: (?P<value>\S+)", "plain": r"\S+$"}
+ALPHA_NUM["group2"] = ALPHA_NUM["group"]
+PATTERN = {"none": None, "group": r"id: (?P<value>\S+)", "plain": r"\S+$", "group2": r"(id|zz id): (?P<value>\S+)( ;)?"}
 DIRECTIONS = ["asc", "desc", "", "ASC", "Desc", None]   # None = bare attribute
 
 RULE = ("Bounded-exhaustive: every sequence of up to MAXLEN lines over a 10-12 symbol alphabet (ordered, equal, "
         "prefix-related, indented, trailing-blank, blank, numeric-looking lines; matching / non-matching lines for the "
-        "pattern modes) x {asc, desc, empty, ASC, Desc, bare} x {no pattern, `value` group, plain regex} x "
+        "pattern modes) x {asc, desc, empty, ASC, Desc, bare} x {no pattern, `value` group, plain regex, `value` group between unnamed groups} x "
         "{lexicographic, numeric over all-numeric alphabets}; plus random long blocks (<=400 lines), Unicode keys, CRLF "
         "and nested blocks. Each block is judged by a reference model written from the statement: presence of the "
         "diagnostic, at most one, and the designated key (line + byte columns -> bytes of the file). A case is one "
@@ -51,7 +53,7 @@ def _attrs(direction, mode, numeric):
 def plan(tier, seed):
     jobs = []
     maxlen = MAXLEN[tier]
-    for mode in ("none", "group", "plain"):
+    for mode in ("none", "group", "plain", "group2"):
         for numeric in (False, True):
             alpha = (ALPHA_NUM if numeric else ALPHA)[mode]
             for di, direction in enumerate(DIRECTIONS):
@@ -130,7 +132,7 @@ WORDS = ["alpha", "beta", "Beta", "gamma", "delta", "√©p√©e", "zeta", "Zeta", "Ê
 
 def _random_block(r):
     numeric = r.random() < 0.3
-    mode = r.choice(["none", "none", "group", "plain"])
+    mode = r.choice(["none", "none", "group", "plain", "group2"])
     direction = r.choice(DIRECTIONS)
     n = r.choice([2, 3, 5, 8, 20, 60, 200, 400])
     desc = (direction or "").lower() == "desc"
@@ -152,7 +154,7 @@ def _random_block(r):
         ind = r.choice(["", "", "  ", "\t"])
         if mode == "none":
             lines.append(ind + k + r.choice(["", "", " "]))
-        elif mode == "group":
+        elif mode in ("group", "group2"):
             lines.append(ind + "id: " + k + r.choice(["", " ; trailing"]))
         else:
             lines.append(ind + r.choice(["", "pre ", "x y "]) + k)
